@@ -18,6 +18,7 @@ import fickling.hook as hook  # noqa: E402
 from fickling.exception import UnsafeFileError  # noqa: E402
 
 FLAGGED = b"cverif_sink\nhit\n(S'probe'\ntR."
+ADDPROBE = b"ccollections\nCounter\n."            # permitted only by an activation whose additions name it
 MLONLY = b"(cfractions\nFraction\ncdatetime\ndate\nl."      # LIKELY_SAFE for the static check, not on the ML allowlist
 ADD = ["verif_nat.Plain", "collections.Counter"]
 
@@ -51,7 +52,8 @@ def observe():
     cur = (pickle.load, pickle.loads, _pickle.load, _pickle.loads)
     pr = [probe(i) for i in range(4)]
     ml = [probe(i, MLONLY) for i in range(4)]
-    return {"mlblocks": [o == "refused" for o, _r in ml], "blocks": [o == "refused" and not r for o, r in pr], "orig": [c is o for c, o in zip(cur, ORIG)],
+    ad = [probe(i, ADDPROBE) for i in range(4)]
+    return {"addblocks": [o == "refused" for o, _r in ad], "mlblocks": [o == "refused" for o, _r in ml], "blocks": [o == "refused" and not r for o, r in pr], "orig": [c is o for c, o in zip(cur, ORIG)],
             "probe": [o + ("+ran" if r else "") for o, r in pr]}
 
 
